@@ -217,7 +217,9 @@ Example c14_nonvacuous :
 Proof.
   cbv zeta. split; [exists ex_hist; reflexivity|].
   repeat (split; [vm_compute; reflexivity|]).
-  split; [repeat constructor; simpl; tauto|].
+  split.
+  { apply Forall_forall. intros st Hin. unfold ex_hist in Hin. simpl in Hin.
+    repeat (destruct Hin as [<-|Hin]; [simpl; tauto|]). destruct Hin. }
   split.
   - exists (firstn 19 ex_hist), 2, (skipn 20 ex_hist). split; vm_compute; reflexivity.
   - intros (pre & a & post & Heq & Hok). vm_compute in Heq.
